@@ -21,6 +21,9 @@ M = [
     ("C15", "skip ReadFactory re-detection after a member", "break", "util/compress.cc",
      "          ReplaceThis(ReadFactory(file_.release(), ReadCount(thunk), back_.NextInput(), back_.AvailInput(), true), thunk);",
      "          ReplaceThis(new Complete(), thunk);"),
+    ("C15", "seeded C02-m2: next member only probed when input is left", "break", "util/compress.cc",
+     "          ReplaceThis(ReadFactory(file_.release(), ReadCount(thunk), back_.NextInput(), back_.AvailInput(), true), thunk);",
+     "          if (back_.AvailInput()) {\n            ReplaceThis(ReadFactory(file_.release(), ReadCount(thunk), back_.NextInput(), back_.AvailInput(), true), thunk);\n          } else {\n            ReplaceThis(new Complete(), thunk);\n          }"),
     ("C15", "revert fix: zlib input cursor uninitialised", "break", "util/compress.cc",
      "      stream_.next_in = Z_NULL;\n      stream_.avail_in = 0;\n", ""),
     ("C15", "revert fix: bzip2 stall test", "break", "util/compress.cc",
